@@ -216,6 +216,8 @@ def case_blefrag(params):
     body = ref.encode(items)
     cuts = [0] + list(params["cuts"]) + [len(body)]
     parts = [body[a:b] for a, b in zip(cuts, cuts[1:])]
+    if params.get("empty_last"):
+        parts.append(b"")  # the reply was an exact multiple of the accessory's fragment size: the closing FragmentLast carries zero bytes
     if params.get("plain") and len(parts) == 1:
         pieces = [body]
     else:
@@ -328,6 +330,10 @@ def run(ctx):
             for cuts in itertools.combinations(range(1, n), k):
                 bl.append({"spec": s, "cuts": list(cuts)})
         bl.append({"spec": s, "cuts": [], "plain": True})
+        for k in range(0, 3):
+            for cuts in itertools.combinations(range(1, n), k):
+                if k < 2 or (cuts[0] % 3 == 0):
+                    bl.append({"spec": s, "cuts": list(cuts), "empty_last": True})
     long = [(6, 1), (3, 384), (5, 300)]
     n = len(ref.encode(_mk_list(long)))
     for c in range(1, n, 1 if not quick else 5):
